@@ -195,6 +195,21 @@ func runC02(c *Collector, r *Rng, thorough bool) {
 						if len(v.calls) != 1 || !bytes.Equal(want, v.calls[0].content) {
 							c.Fail("C02/signature-structure-decoded", fmt.Sprintf("verifier %d got %x, want %x", j, v.calls, want), map[string]any{"data": hx(data)})
 						}
+						// the per-signer entry points called directly (threshold policies do), with the body's
+						// protected bytes exactly as they were received (any head width): same structure
+						bodyRaw := body.Kids[0].Ser()
+						v2 := &spyVerifier{alg: v.alg}
+						e2 := d.sm.Signatures[j].Verify(v2, bodyRaw, d.sm.Payload, ext)
+						c.Eval("signature-verify/direct", hx(data)+fmt.Sprint(j), true)
+						if e2 != nil || len(v2.calls) != 1 || !bytes.Equal(want, v2.calls[0].content) {
+							c.Fail("C02/signature-structure-direct", fmt.Sprintf("Signature.Verify called directly with the received body protected bytes %x: err=%v, verifier got %x, want %x", bodyRaw, e2, v2.calls, want), map[string]any{"data": hx(data)})
+						}
+						s3 := &cose.Signature{Headers: cose.Headers{RawProtected: d.sm.Signatures[j].Headers.RawProtected, Protected: d.sm.Signatures[j].Headers.Protected}}
+						g3 := &spySigner{alg: v.alg, kind: SOk, sig: []byte{1}}
+						e3 := s3.Sign(r, g3, bodyRaw, d.sm.Payload, ext)
+						if e3 != nil || len(g3.calls) != 1 || !bytes.Equal(want, g3.calls[0]) {
+							c.Fail("C02/signature-structure-direct", fmt.Sprintf("Signature.Sign called directly with the received body protected bytes %x: err=%v, signer got %x, want %x", bodyRaw, e3, g3.calls, want), map[string]any{"data": hx(data)})
+						}
 					}
 				}
 			}
@@ -248,6 +263,35 @@ func runC02(c *Collector, r *Rng, thorough bool) {
 	rn := 20
 	if thorough {
 		rn = 500
+	}
+	// ---- hash envelopes made by another implementation (protected map in any order, any head widths):
+	// VerifyHashEnvelope hands its verifier the structure over the protected bytes as received ----
+	for i := 0; i < rn; i++ {
+		alg := pick(r, goAlgs)
+		pm := wMap(-1, wInt(1, -1), wInt(int64(alg), -1), wInt(258, -1), wInt(-16, -1), wInt(260, -1), wTstr("loc", -1), wInt(4, -1), wBstr(r.Bytes(1+r.Intn(20)), -1))
+		if i%4 != 0 {
+			pm.RandWidths(r, 1, 2, nil)
+			pm.ShuffleMaps(r)
+		}
+		pb := wBstr(pm.Ser(), -1)
+		pb.Width = pick(r, widthsFor(uint64(len(pb.Str))))
+		digest := r.Bytes(32)
+		env := wTag(18, -1, wArr(-1, pb, wMap(-1), wBstr(digest, pick(r, []int{-1, -1, 1, 2})), wBstr([]byte{1, 2, 3}, -1))).Ser()
+		vf := &spyVerifier{alg: alg}
+		op, obs, _, verr, p := execVerifyHE(vf, env)
+		if p {
+			c.Fail("C02/panic", "VerifyHashEnvelope panicked", map[string]any{"data": hx(env)})
+			continue
+		}
+		addCase(c, "verify-hash-envelope/foreign", op, obs, len(vf.calls) > 0)
+		if verr == nil {
+			want := refArray(refTstr("Signature1"), refBstr(pb.Str), refBstr(nil), refBstr(digest))
+			if len(vf.calls) != 1 || !bytes.Equal(want, vf.calls[0].content) {
+				c.Fail("C02/hashenvelope-structure", fmt.Sprintf("VerifyHashEnvelope handed its verifier %x, the Sig_structure over the received protected bytes is %x", vf.calls, want), map[string]any{"data": hx(env)})
+			}
+		} else {
+			c.Fail("C02/hashenvelope-refused", "a well-formed hash envelope is refused although the verifier accepts: "+verr.Error(), map[string]any{"data": hx(env)})
+		}
 	}
 	for i := 0; i < rn; i++ {
 		alg := pick(r, goAlgs)
